@@ -581,6 +581,11 @@ class Fix5(TlvModel):
     d = ModelField(0x30, Derived)
     r = RepeatedField(UintField(0x32))
     rb = RepeatedField(BytesField(0x34, is_string=True))
+
+class Fix6(TlvModel):
+    head = UintField(0x81)
+    routes = MapField(UintField(0x85), NameField())
+    tail = BytesField(0x8b)
 '''
 
 
@@ -590,7 +595,7 @@ def fixed_synth():
         ns = {k: getattr(enc, k) for k in ('TlvModel', 'UintField', 'BoolField', 'BytesField', 'NameField',
                                            'ModelField', 'RepeatedField', 'MapField', 'IncludeBase')}
         exec(compile(FIXED_SYNTH, '<fixed synthetic models>', 'exec'), ns)
-        _SYN_CACHE['fixed'] = {k: ns[k] for k in ('Derived', 'Fix0', 'Fix1', 'Fix2', 'Fix3', 'Fix4', 'Fix5')}
+        _SYN_CACHE['fixed'] = {k: ns[k] for k in ('Derived', 'Fix0', 'Fix1', 'Fix2', 'Fix3', 'Fix4', 'Fix5', 'Fix6')}
     return _SYN_CACHE['fixed']
 
 
